@@ -34,6 +34,7 @@ func genSites(repo, out string) {
 	pkgs := []string{"", "spec", "fclient", "tokens"}
 	// type-checking takes several seconds: skip it when no source file of these packages changed
 	h := sha256.New()
+	h.Write([]byte("site kinds v2: index slice assert panic fieldcall deref mapwrite\n"))
 	for _, sub := range pkgs {
 		ents, _ := os.ReadDir(filepath.Join(repo, sub))
 		for _, e := range ents {
@@ -211,6 +212,22 @@ func collect(fset *token.FileSet, info *types.Info, f *ast.File, fname string, c
 					}
 				}
 				add("slice", x)
+			case *ast.StarExpr:
+				// explicit dereference of a pointer value (not the pointer type *T)
+				if tv, ok := info.Types[x]; ok && tv.IsValue() {
+					add("deref", x)
+				}
+			case *ast.AssignStmt:
+				// m[k] = v panics on a nil map
+				for _, l := range x.Lhs {
+					if ix, ok := l.(*ast.IndexExpr); ok {
+						if tv, ok := info.Types[ix.X]; ok && tv.Type != nil {
+							if _, isMap := tv.Type.Underlying().(*types.Map); isMap {
+								add("mapwrite", ix)
+							}
+						}
+					}
+				}
 			case *ast.TypeAssertExpr:
 				if x.Type != nil && !okAsserts[x] {
 					add("assert", x)
